@@ -57,6 +57,8 @@ def main():
         r = sh('VERIF_ROOT=%s /verif/.build/alt-%s/w_c02 quick' % (root, tag), cwd='/tmp')
         keys = re.findall(r'key=(\S.*?) : ', r.stdout)
         new_keys = [k for k in keys if k not in known]
+        if r.returncode not in (0, 1):
+            print('--- stdout tail', r.stdout[-1500:], '--- stderr tail', r.stderr[-3000:])
         res = {'mutation': n, 'file': path, 'exit': r.returncode, 'new_keys': new_keys[:6], 'n_new_keys': len(new_keys), 'wall_s': round(time.time() - t0)}
         print(json.dumps(res), flush=True)
         results.append(res)
